@@ -89,6 +89,12 @@ func (c *RawHTTPResponder) Write(status int, body io.Reader) (written int64, err
 	resp.Body = io.NopCloser(countingreader.New(body, &read))
 	resp.StatusCode = status
 	c.parseAndSetContentLength()
+	if body == http.NoBody && resp.ContentLength > 0 {
+		// A body-less response that still declares the length of the representation is the answer
+		// to a HEAD request. http.Response.Write has to be told, otherwise it writes the head and
+		// then fails with a length mismatch.
+		resp.Request = &http.Request{Method: http.MethodHead}
+	}
 
 	return int64(read), c.writeResponse()
 }
